@@ -37,7 +37,7 @@ const (
 //
 //verif:contract (*~/client.Control).heartbeatWorker
 //verif:props C14
-func verif_heartbeatWorker(ctl *Control) {
+func verif_client_heartbeatWorker(ctl *Control) {
 	interval, timeout := ctl.sessionCtx.Common.Transport.HeartbeatInterval, ctl.sessionCtx.Common.Transport.HeartbeatTimeout
 	verif.Requires(interval <= 1000000, "interval_in_seconds_is_sane")
 	verif.ResetEvents()
@@ -59,7 +59,7 @@ func verif_heartbeatWorker(ctl *Control) {
 //
 //verif:contract (*~/client.Control).heartbeatWorker$1
 //verif:props C14
-func verif_heartbeat_sender() {
+func verif_client_heartbeat_sender() {
 	verif.ResetEvents()
 	done, err := verif.CallTargetR2[bool, error]()
 	verif.Ensures(!done, "sender_never_stops_by_itself")
@@ -77,7 +77,7 @@ func verif_heartbeat_sender() {
 //verif:assume-typeassert (*~/client.Control).heartbeatWorker$2
 //verif:contract (*~/client.Control).heartbeatWorker$2
 //verif:props C14
-func verif_heartbeat_watchdog() {
+func verif_client_heartbeat_watchdog() {
 	ctl := verif.FreeVar[*Control]("ctl")
 	limit := time.Duration(ctl.sessionCtx.Common.Transport.HeartbeatTimeout) * time.Second
 	verif.ResetEvents()
@@ -92,7 +92,7 @@ func verif_heartbeat_watchdog() {
 //
 //verif:contract (*~/client.Control).handlePong
 //verif:props C14
-func verif_handlePong(ctl *Control, m msg.Message) {
+func verif_client_handlePong(ctl *Control, m msg.Message) {
 	p, isPong := m.(*msg.Pong)
 	verif.Requires(isPong, "dispatcher_delivers_registered_type")
 	bad := p.Error != ""
@@ -106,7 +106,7 @@ func verif_handlePong(ctl *Control, m msg.Message) {
 //
 //verif:contract (*~/client.Control).closeSession
 //verif:props C14
-func verif_closeSession(ctl *Control) {
+func verif_client_closeSession(ctl *Control) {
 	verif.ResetEvents()
 	ctl.closeSession()
 	verif.Ensures(verif.CalledWith("Conn).Close", 0, ctl.sessionCtx.Conn) && verif.Called("Connector).Close"), "connection_and_connector_closed")
@@ -119,7 +119,7 @@ func verif_closeSession(ctl *Control) {
 //
 //verif:contract (*~/client.Control).worker
 //verif:props C14 C19
-func verif_worker(ctl *Control) {
+func verif_client_worker(ctl *Control) {
 	verif.Requires(ctl.doneCh != nil && !verif.Closed(ctl.doneCh) && visitor.VerifManagerOK(ctl.vm), "session_open_managers_built")
 	verif.ResetEvents()
 	ctl.worker()
